@@ -37,10 +37,14 @@ Expand(a) ==
   {Scen("op", op, "mm", a, b, ROne, "-", "-") : op \in BinOps2, b \in Mags}
   \cup {Scen("op", op, "mn", a, b, ROne, "-", "-") : op \in BinOps2, b \in {m \in Mags : IsNone(m.e)}}
   \cup (IF IsNone(a.e) THEN {Scen("op", op, "nm", a, b, ROne, "-", "-") : op \in BinOps2, b \in Mags} ELSE {})
+  \cup {Scen("op", op, "self", a, a, ROne, "-", "-") : op \in BinOps2}            \* both operands are the SAME object
   \cup {Scen("op", "neg", "m", a, DummyM, ROne, "-", "-")}
   \cup {Scen("op", "pow", "m", a, DummyM, p, "-", "-") : p \in Ps}
   \cup {Scen("conv", "to", "q", a, DummyM, ROne, uw[1], uw[2]) : uw \in UnitPairs}
   \cup {Scen("qsum", op, "qq", a, b, ROne, uw[1], uw[2]) : op \in {"add", "sub"}, b \in Mags, uw \in UnitPairs}
+  \cup {Scen("query", "value", "q", a, DummyM, ROne, uw[1], uw[2]) : uw \in UnitPairs}
+  \cup {Scen("qcons", "ctor", "q", a, DummyM, ROne, uw[1], uw[2]) : uw \in UnitPairs}
+  \cup {Scen("qdiv", "div", "qq", a, b, ROne, uw[1], uw[2]) : b \in Mags, uw \in UnitPairs}
 
 Init == IF Source = "enum" THEN stage = 0 /\ sc = Scen("-", "-", "-", DummyM, DummyM, ROne, "-", "-") /\ idx = 0
         ELSE /\ stage = 2 /\ idx \in 1..(IF NFile < Stride THEN NFile ELSE Stride) /\ sc = FileScen[idx]
@@ -60,38 +64,50 @@ SameDimU(u, w) == UInfo[u].dim = UInfo[w].dim
 
 Class(s) ==
   CASE s.kind = "op" -> IF UnspecifiedM(s.op, s.a, s.b, s.p) THEN "unspecified" ELSE "ok"
-    [] s.kind \in {"conv", "qsum"} -> IF SameDimU(s.ua, s.ub) THEN "ok" ELSE "refused"
+    [] s.kind \in {"conv", "qsum", "query", "qcons"} -> IF SameDimU(s.ua, s.ub) THEN "ok" ELSE "refused"
+    [] s.kind = "qdiv" -> IF ~SameDimU(s.ua, s.ub) THEN "refused"
+                          ELSE IF UnspecifiedM("div", s.a, s.b, s.p) THEN "unspecified" ELSE "ok"
 
 Obs(s) ==
   CASE s.kind = "op" -> IdealOb(s.op, s.a, s.b, s.p)
     [] s.kind = "conv" -> ConvOb(s.a, FacRatio(s.ua, s.ub), FacRatioT(s.ua, s.ub), Exact)
     [] s.kind = "qsum" -> QSumOb(s.a, s.b, FacRatio(s.ub, s.ua), FacRatioT(s.ub, s.ua), Exact)
+    [] s.kind = "query" -> QueryOb(s.a)
+    [] s.kind = "qcons" -> ConvOb(s.a, FacRatio(s.ua, s.ub), FacRatioT(s.ua, s.ub), Exact)
+    [] s.kind = "qdiv" -> QDivOb(s.a, s.b, FacRatio(s.ua, s.ub), FacRatioT(s.ua, s.ub), Exact)
 
 Mach(s) ==
   CASE s.kind = "op" -> MErr(s.op, s.a, s.b, s.p)
     [] s.kind = "conv" -> MConvErr(s.a, FacRatio(s.ua, s.ub))
     [] s.kind = "qsum" -> MQSumErr(s.a, s.b, FacRatio(s.ub, s.ua))
+    [] s.kind = "query" -> s.a.e                                              \* value(w) builds a new Magnitude
+    [] s.kind = "qcons" -> IF IsNone(s.a.e) THEN None ELSE RMul(s.a.e, FacRatio(s.ua, s.ub))   \* magnitude *= factor
+    [] s.kind = "qdiv" -> MQDivErr(s.a, s.b, FacRatio(s.ua, s.ub))
 
 FeatureTags(s) ==
   CASE s.kind = "op" -> Features(s.op, s.a, s.b, s.p)
     [] s.kind = "conv" -> IF s.ua # s.ub /\ Uncertain(s.a) THEN {"convert", "units_differ"} ELSE {"convert"}
     [] s.kind = "qsum" -> IF s.ua # s.ub /\ Uncertain(s.b) THEN {"mixed_units"} ELSE {}
+    [] s.kind \in {"query", "qcons", "qdiv"} -> IF s.ua # s.ub THEN {"units_differ"} ELSE {}
 
 \* deviation tags: computed on the exact model; in file mode the machine leaves the error unscaled whenever the
 \* units differ and the converted operand is uncertain (the factor is not known to TLC)
 Tags(s) ==
   FeatureTags(s) \cup
-  (IF Exact THEN DevTags(Obs(s), Mach(s), IF s.kind = "op" THEN "machine_off_ideal" ELSE "error_not_scaled")
+  (IF Exact THEN DevTags(Obs(s), Mach(s), IF s.kind \in {"conv", "qsum"} THEN "error_not_scaled" ELSE "machine_off_ideal")
    ELSE IF ((s.kind = "conv" /\ s.ua # s.ub /\ Uncertain(s.a)) \/ (s.kind = "qsum" /\ s.ua # s.ub /\ Uncertain(s.b)))
            /\ ~Scaled
         THEN {"error_not_scaled"} ELSE {})
+
+\* in file mode TLC does not know the factors: the transcription's prediction is a number only where no factor enters
+MachKnown(s) == Exact \/ s.kind = "query" \/ (s.kind \in {"conv", "qsum"} /\ ~Scaled)
 
 Record(s) ==
   LET c == Class(s) IN
   [id |-> idx, kind |-> s.kind, op |-> s.op, side |-> s.side, a |-> s.a, b |-> s.b, p |-> s.p, ua |-> s.ua, ub |-> s.ub,
    cls |-> c, obs |-> IF c = "ok" THEN Obs(s) ELSE <<>>,
-   mach |-> IF c = "ok" /\ (Exact \/ (s.kind # "op" /\ ~Scaled)) THEN Mach(s) ELSE None,
-   machknown |-> c = "ok" /\ (Exact \/ (s.kind # "op" /\ ~Scaled)),
+   mach |-> IF c = "ok" /\ MachKnown(s) THEN Mach(s) ELSE None,
+   machknown |-> c = "ok" /\ MachKnown(s),
    tags |-> IF c = "ok" THEN Tags(s) ELSE {}]
 
 EmitInv == (stage = 2 /\ Emit) => PrintT(ToJson(Record(sc)))
@@ -108,7 +124,7 @@ Lemmas ==
     /\ (sc.kind = "op" /\ sc.op = "mul" /\ IsNone(b.e) /\ Uncertain(a)) =>
           IdealOb("div", [v |-> RMul(a.v, b.v), e |-> obs[1].q], b, sc.p)[1].q = a.e
     \* the formulas of the code leave the ideal only by the sign of the error (first-order bounds hold for them)
-    /\ (sc.kind = "op") => DevTags(obs, Mach(sc), "machine_off_ideal") \subseteq {"error_sign"}
+    /\ (sc.kind \in {"op", "query", "qcons", "qdiv"}) => DevTags(obs, Mach(sc), "machine_off_ideal") \subseteq {"error_sign"}
     /\ (sc.kind = "op" /\ "error_sign" \in Tags(sc)) => Features(sc.op, a, b, sc.p) # {}
     \* converting there and back restores the uncertainty; relative uncertainty is the absolute one over the value
     /\ (sc.kind = "conv" /\ Uncertain(a)) =>
